@@ -64,8 +64,35 @@ func applyNetPolicies(ctx context.Context, kc kubernetes.Interface, b *netPolBui
 			break
 		}
 	}
+	if err != nil {
+		return err
+	}
 
-	return err
+	// remove policies of an earlier manifest version that are no longer wanted,
+	// e.g. the one opening a port the tenant has stopped exposing globally
+	wanted := make(map[string]struct{}, len(policies))
+	for _, pol := range policies {
+		wanted[pol.Name] = struct{}{}
+	}
+	existing, err := kc.NetworkingV1().NetworkPolicies(b.ns()).List(ctx, metav1.ListOptions{
+		LabelSelector: akashManagedLabelName + "=true",
+	})
+	metricsutils.IncCounterVecWithLabelValues(kubeCallsCounter, "networking-policies-list", err)
+	if err != nil {
+		return err
+	}
+	for _, pol := range existing.Items {
+		if _, ok := wanted[pol.Name]; ok {
+			continue
+		}
+		err = kc.NetworkingV1().NetworkPolicies(b.ns()).Delete(ctx, pol.Name, metav1.DeleteOptions{})
+		metricsutils.IncCounterVecWithLabelValuesFiltered(kubeCallsCounter, "networking-policies-delete", err, errors.IsNotFound)
+		if err != nil && !errors.IsNotFound(err) {
+			return err
+		}
+	}
+
+	return nil
 }
 
 // TODO: re-enable.  see #946
